@@ -217,10 +217,96 @@ func (f *Fn) Product() *Product {
 			}
 		}
 	}
+	// copies of error values (x = y, x = nil, x = <error constructor>): the nil-test of x after the
+	// copy has the truth value of the nil-test of y before it.  This is what relates the error test
+	// inside an inlined helper to the caller's test of the helper's result.
+	type copyOp struct {
+		v        int
+		dst, src string // atom keys "x==nil"; src "" for constants
+		constNil bool   // src == "": x is nil (true) / known non-nil (false)
+	}
+	var copies []copyOp
+	nilKey := func(e ast.Expr) (string, bool) {
+		id, ok := ast.Unparen(e).(*ast.Ident)
+		if !ok || id.Name == "_" {
+			return "", false
+		}
+		o := f.Info.Uses[id]
+		if o == nil {
+			o = f.Info.Defs[id]
+		}
+		v, isVar := o.(*types.Var)
+		if !isVar || v.IsField() || v.Pkg() == nil || v.Parent() == v.Pkg().Scope() || addrTaken[v] {
+			return "", false
+		}
+		if !types.Identical(v.Type(), types.Universe.Lookup("error").Type()) {
+			return "", false
+		}
+		return cmpAtom(fmt.Sprintf("%s@%d", v.Name(), v.Pos()), token.EQL, "nil").Key, true
+	}
+	for _, v := range g.Vs {
+		as, ok := v.Node.(*ast.AssignStmt)
+		if v.Kind != VNode || !ok || len(as.Lhs) != len(as.Rhs) || (as.Tok != token.ASSIGN && as.Tok != token.DEFINE) {
+			continue
+		}
+		for i := range as.Lhs {
+			dk, ok := nilKey(as.Lhs[i])
+			if !ok {
+				continue
+			}
+			if sk, ok := nilKey(as.Rhs[i]); ok {
+				copies = append(copies, copyOp{v: v.ID, dst: dk, src: sk})
+				continue
+			}
+			if IsNilIdent(f.Info, as.Rhs[i]) {
+				copies = append(copies, copyOp{v: v.ID, dst: dk, constNil: true})
+				continue
+			}
+			switch r := ast.Unparen(as.Rhs[i]).(type) {
+			case *ast.CallExpr:
+				if !f.P.canReturnNilErr(Callee(f.Info, r), 0) {
+					copies = append(copies, copyOp{v: v.ID, dst: dk, constNil: false})
+				}
+			case *ast.CompositeLit:
+				copies = append(copies, copyOp{v: v.ID, dst: dk, constNil: false})
+			case *ast.UnaryExpr:
+				if r.Op == token.AND {
+					copies = append(copies, copyOp{v: v.ID, dst: dk, constNil: false})
+				}
+			}
+		}
+	}
+	for _, c := range copies {
+		if c.src != "" {
+			if count[c.dst] > 0 && count[c.src] > 0 {
+				count[c.dst]++
+				count[c.src]++
+			}
+		} else if count[c.dst] > 0 {
+			count[c.dst]++
+		}
+	}
 	edges := map[int]ce{}
 	for _, v := range g.Vs {
 		if v.IsCond {
 			edges[v.ID] = ce{t: collect(v.Cond, true, true), f: collect(v.Cond, false, true)}
+		}
+	}
+	// transfers per vertex, applied after the kill mask
+	type xfer struct {
+		dst, src int // atom indexes; src < 0: constant
+		val      bool
+	}
+	xfers := map[int][]xfer{}
+	for _, c := range copies {
+		di, ok := index[c.dst]
+		if !ok {
+			continue
+		}
+		if c.src == "" {
+			xfers[c.v] = append(xfers[c.v], xfer{di, -1, c.constNil})
+		} else if si, ok := index[c.src]; ok {
+			xfers[c.v] = append(xfers[c.v], xfer{di, si, false})
 		}
 	}
 	// kill masks
@@ -304,6 +390,21 @@ func (f *Fn) Product() *Product {
 		s := states[i]
 		v := g.Vs[s.v]
 		dec, val := s.decided&^kill[s.v], s.value&^kill[s.v]
+		for _, x := range xfers[s.v] {
+			bit := uint32(1) << uint(x.dst)
+			dec, val = dec&^bit, val&^bit
+			if x.src < 0 {
+				dec |= bit
+				if x.val {
+					val |= bit
+				}
+			} else if sb := uint32(1) << uint(x.src); s.decided&sb != 0 {
+				dec |= bit
+				if s.value&sb != 0 {
+					val |= bit
+				}
+			}
+		}
 		for _, succ := range v.Succ {
 			d2, v2 := dec, val
 			feasible := true
